@@ -65,3 +65,16 @@ finally:
     shutil.rmtree(wt, ignore_errors=True)
     shutil.rmtree(br, ignore_errors=True)
     subprocess.run(["git", "-C", "/repo", "worktree", "prune"], stderr=subprocess.DEVNULL)
+    # a changed library runs as root inside the checks: make sure it did not damage what later runs rely on
+    import stat
+    for dev, minor in (("/dev/full", 7), ("/dev/null", 3), ("/dev/zero", 5)):
+        try:
+            ok = stat.S_ISCHR(os.stat(dev).st_mode)
+        except OSError:
+            ok = False
+        if not ok:
+            print("SANDBOX DAMAGE: %s is no longer a character device after %s; restoring" % (dev, a.name))
+            subprocess.run("rm -f %s; mknod -m 666 %s c 1 %d" % (dev, dev, minor), shell=True)
+    r = subprocess.run(["git", "-C", "/repo", "status", "--porcelain", "--untracked-files=no"], capture_output=True, text=True)
+    if r.stdout.strip():
+        print("SANDBOX DAMAGE: /repo working tree changed during the run:", r.stdout.strip()[:200])
